@@ -1,6 +1,38 @@
-import YncaVerif.Model.Conn
-/-! # C01 — (statements over the L4 model; under construction) -/
+import YncaVerif.Lemmas.C01
+/-! # C01 — commands reach the wire at most once, unchanged, in submission order; nothing else but probes
+Over the L4 model.  `submitted` is the ghost list of commands in the linearisation order of their
+enqueue; ids are unique, so a pair `(id, text)` on the wire identifies the submission and its text. -/
 namespace Ynca.C01
 open Ynca.L4
-theorem C01_model_initial_state : run ⟨100000, 30000000, 2000000, 1000000, 0⟩ {} [] = some {} := rfl
+
+/-- **at most once, in order, text unchanged**: what is on the wire, in the sender's hands and still
+    queued — in this order — is an order-preserving sub-sequence of what was submitted -/
+theorem C01_sublist (P : Params) (s : St) (h : Reachable P s) :
+    List.Sublist (wireCmds s.wire ++ inflight s.spc ++ queueCmds s.queue) (submittedCmds s) :=
+  fifo_sublist P s h
+
+/-- ids are unique (hence "at most once" is about submissions, not texts) -/
+theorem C01_ids_unique (P : Params) (s : St) (h : Reachable P s) : ((submittedCmds s).map (·.1)).Nodup :=
+  submitted_ids_nodup P s h
+
+/-- **nothing is lost while the connection is up**: before the reader begins `connection_lost` and
+    unless the sender died on a write error, that sub-sequence is everything -/
+theorem C01_nothing_lost_while_up (P : Params) (s : St) (h : Reachable P s)
+    (hup : lossBegun s.rpc = false) (hs : s.spc ≠ .dead) :
+    wireCmds s.wire ++ inflight s.spc ++ queueCmds s.queue = submittedCmds s :=
+  fifo_exact_while_up P s h hup hs
+
+/-- **quiescence**: connection up, queue empty, sender back in its idle wait ⇒ every submitted command
+    has been written -/
+theorem C01_quiescent_complete (P : Params) (s : St) (h : Reachable P s)
+    (hup : lossBegun s.rpc = false) (hq : s.queue = []) (d : Nat) (hs : s.spc = .waitGet d) :
+    wireCmds s.wire = submittedCmds s := by
+  have := fifo_exact_while_up P s h hup (by rw [hs]; simp)
+  simpa [hq, hs, inflight, queueCmds] using this
+
+/-- **nothing but probes otherwise**: every write that is not a user command is the keep-alive probe -/
+theorem C01_only_probes_else (P : Params) (s : St) (h : Reachable P s) :
+    ∀ e ∈ s.wire, e.2.2 = none → e.2.1 = probe :=
+  wire_non_user_is_probe P s h
+
 end Ynca.C01
